@@ -144,3 +144,31 @@ func VerifC15() {
 	}
 	verifReach("end")
 }
+
+// C14 at the top level: a real (not dry, not measurement-only) VirtualFirmware run over a
+// version-control back end whose every call may fail reports success exactly when a commit
+// succeeded (the error of a failed submission must not get lost on the way up).
+func VerifC14TopLevel() {
+	retries := verifNondetInt("retries")
+	verifAssume(retries >= 0 && retries <= 1, "retry budget 0 or 1")
+	vcs := &verifVCS{head: &verifStore{}, faults: true}
+	vcs.maxAttempts = retries + 1
+	ca := &verifCA{}
+	signer := &verifSigner{}
+	ec := &Context{VCS: vcs, CommitRetries: retries, OutDir: "out", Image: verifNondetBytes("image", 1), CandidateName: "cand",
+		Timestamp: time.Unix(int64(verifNondetU32("ts")), 0), ImageName: "fw.fd",
+		SevSnp: &sev.SnpEndorsementRequest{Svn: 1, LaunchVmsas: 1}}
+	ctx := NewContext(context.Background(), ec)
+	ctx = output.NewContext(ctx, &output.Options{})
+	ctx = keys.NewContext(ctx, &keys.Context{CA: ca, Signer: signer})
+	err := VirtualFirmware(ctx)
+	verifObserve("ok", err == nil)
+	verifAssert((err == nil) == (vcs.commits == 1), "the run reports success exactly when a commit succeeded")
+	verifAssert(vcs.commits <= 1 && vcs.results == vcs.commits, "at most one commit, recorded once")
+	if err == nil {
+		verifReach("success")
+	} else {
+		verifReach("failure")
+	}
+	verifReach("end")
+}
